@@ -238,10 +238,9 @@ Lemma tmodel_satisfies_spec : forall limit cl size fault impl,
   tspec_okb limit size fault (model_tobs limit cl size fault) = true.
 Proof.
   intros limit cl size fault impl Hwf. unfold twf in Hwf. cbn [tc_size tc_fault tc_cl] in Hwf.
-  apply andb_true_iff in Hwf. destruct Hwf as [Hpos Hwf]. apply N.ltb_lt in Hpos.
   unfold tspec_okb, model_tobs, ta_response.
   assert (Hd : delivered [Data size] = size /\ faulty [Data size] = false).
-  { cbn. destruct (N.eqb_spec size 0); [lia|]. split; [lia | reflexivity]. }
+  { cbn. destruct (N.eqb_spec size 0); [split; [congruence | reflexivity]|]. split; [lia | reflexivity]. }
   destruct Hd as [Hd Hnf].
   destruct (N.eqb_spec fault 0) as [-> | Hf0].
   - cbn [N.eqb negb].
@@ -251,7 +250,8 @@ Proof.
     destruct (withinb limit size); [rewrite N.eqb_refl; reflexivity | reflexivity].
   - cbn [negb]. destruct (N.eqb_spec fault 1) as [-> | Hf1]; [reflexivity|].
     destruct (N.eqb_spec fault 2) as [-> | Hf2].
-    + rewrite load_ta_fault; [reflexivity|]. cbn. destruct (N.eqb_spec size 0); [lia | reflexivity].
+    + apply andb_true_iff in Hwf. destruct Hwf as [Hpos _]. apply N.ltb_lt in Hpos.
+      rewrite load_ta_fault; [reflexivity|]. cbn. destruct (N.eqb_spec size 0); [lia | reflexivity].
     + discriminate Hwf.
 Qed.
 
